@@ -140,7 +140,7 @@ def instances(seed=0, only=None):
         'TransposeOperator': lambda: (core.TransposeOperator(dense.DenseBlockDiagonalOperator(r(4, 2), s23) @ D()), False),
         'InverseOperator': lambda: (core.InverseOperator(dense.DenseBlockDiagonalOperator(spd, s3, 'ij,j->i')), False),
         'IdentityOperator': lambda: (core.IdentityOperator(s23), False),
-        'HomothetyOperator': lambda: (core.HomothetyOperator(r(), s23), False),
+        'HomothetyOperator': lambda: (core.HomothetyOperator(-r() if seed % 2 else r(), s23), False),
         'BroadcastDiagonalOperator': lambda: (diagonal.BroadcastDiagonalOperator(r(4, 3), in_structure=s3), False),
         'DiagonalOperator': lambda: (D(), False),
         'DiagonalInverseOperator': lambda: (D().I, False),
